@@ -81,7 +81,7 @@ class OpsStub:
 
 def _run_line(build: Callable[[], SymStr], calls: List[Any]):
     lp = J.lp
-    orig_split = lp.LineParser.get_splitted_operands
+    orig_split = vars(lp.LineParser)["get_splitted_operands"]
     orig_parse = lp.OperandsParser.parse
 
     def fake_split(operands):
@@ -130,7 +130,7 @@ def _line_scenarios():
                 base = f"parse_line:{sid}:p{i}"
                 if p.kind != "ret":
                     obs.append(simple_ob(base + ":EXC", func, "EXC", f"[{sid}] no line of the objdump grammar makes the parser fail", False,
-                                         ["C08"], detail=repr(p.value) + getattr(p.value, "_pyvc_tb", "")[-300:], witness=type(p.value).__name__))
+                                         ["C08", "C16"], detail=repr(p.value) + getattr(p.value, "_pyvc_tb", "")[-300:], witness=type(p.value).__name__))
                     continue
                 r, cl = p.value
                 is_inst = type(r).__name__ == "Instruction"
@@ -146,8 +146,9 @@ def _line_scenarios():
                                          ok, ["C08", "C16"], detail=repr(r), witness=repr(r)[:80]))
                     continue
                 if not is_inst:
-                    obs.append(simple_ob(base + ":POST-instruction", func, "POST", f"[{sid}] an instruction line yields an Instruction", False,
-                                         ["C08"], detail=repr(r), witness=type(r).__name__))
+                    obs.append(simple_ob(base + ":POST-instruction", func, "POST", f"[{sid}] an instruction line yields an Instruction "
+                                         "(whatever its padding, byte column, annotation or comment say)", False,
+                                         ["C08", "C16", "C10"], detail=repr(r), witness=type(r).__name__))
                     continue
                 addr_ok = _show(c, r.addr) == "‹addr›"
                 want_mn = exp["mn"]
@@ -169,14 +170,14 @@ def _line_scenarios():
                 if exp["ops"] is None:
                     ok = list(r.operands) == [] and not cl
                     obs.append(simple_ob(base + ":POST-no-operands", func, "POST", f"[{sid}] an instruction without operand token has no operands",
-                                         ok, ["C08", "C09", "C16"], detail=repr(r.operands), witness=repr(r.operands)[:60]))
+                                         ok, ["C08", "C09", "C16", "C10"], detail=repr(r.operands), witness=repr(r.operands)[:60]))
                 else:
                     want = "‹" + exp["ops"] + "›"
                     ok = (len(cl) == 2 and cl[0][0] == "split" and _show(c, cl[0][1]) == want and cl[1][0] == "norm"
-                          and cl[1][1][0] == "<split>" and list(r.operands)[:1] == ["<norm>"])
+                          and cl[1][1][0] == "<split>" and len(r.operands) == 2 and r.operands[0] == "<norm>" and r.operands[1] is cl[1][1])
                     obs.append(simple_ob(base + ":POST-operands", func, "POST",
                                          f"[{sid}] operands = normalise(split(the operand token)) -- exactly the token after the mnemonic, "
-                                         "up to the first space or '#'", ok, ["C08", "C09", "C16"], detail=f"{[(k, _show(c, a) if isinstance(a, str) else a) for k, a in cl]}",
+                                         "up to the first space or '#' (nothing else becomes an operand)", ok, ["C08", "C09", "C16", "C10"], detail=f"{[(k, _show(c, a) if isinstance(a, str) else a) for k, a in cl]}",
                                          witness=repr(cl)[:80]))
             return obs
         scenario(f"parser:line:{sid}", func, ["C08", "C16", "C10", "C09"],
@@ -402,8 +403,16 @@ class _LoopLog:
         self.log[:] = [("splice", seq.root, at)]
 
     def check(self, seq, at):
-        ok = len(self.log) == 2 and self.log[1][0] == "consume" and type(self.log[1][1]).__name__ == "Instruction" \
-            and getattr(self.log[1][1].addr, "ident", None) == "addr(line_k)" and seq.root == "lines|filter"
+        # the loop may run over the already filtered results (every element is an Instruction and is consumed) or over all
+        # results, skipping the others itself: in both forms the step consumes the generic element iff it is an Instruction
+        consumed = [x[1] for x in self.log[1:] if x[0] == "consume"]
+        is_inst = type(seq.elem).__name__ == "Instruction"
+        if seq.root == "lines|filter":
+            want = is_inst
+        else:
+            want = seq.root == "lines" and True
+        ok = want and len(self.log) == 1 + len(consumed) and consumed == ([seq.elem] if is_inst else []) \
+            and all(c is seq.elem and getattr(c.addr, "ident", None) == "addr(line_k)" for c in consumed)
         self.obs.append(simple_ob(self.base + ":INV", GP, "INV",
                                   "Inv preserved: the consumer has received exactly the Instruction results of the lines seen so far, in file order",
                                   ok, ["C08", "C16"], detail=repr(self.log), witness=repr(self.log)[:80]))
@@ -445,7 +454,7 @@ def pipeline():
             seen.add(o.name)
             obs.append(o)
     for i, p in enumerate(runr.paths):
-        ok = p.kind == "ret" and len(p.value) == 1 and p.value[0][0] == "splice" and p.value[0][1] == "lines|filter" and p.value[0][2] == "len"
+        ok = p.kind == "ret" and len(p.value) == 1 and p.value[0][0] == "splice" and p.value[0][1] in ("lines|filter", "lines") and p.value[0][2] == "len"
         obs.append(simple_ob(f"ObjdumpParserManual.parse:p{i}:POST", GP, "POST",
                              "on return the consumer has received filter(is Instruction, map(parse_line, lines)), in order", ok, ["C08", "C16"],
                              detail=repr(p.value), witness=repr(p.value)[:80]))
@@ -511,13 +520,13 @@ class _StubObserver:
         return J.gd.Instruction(addr=inst.addr, mnemonic=inst.mnemonic, operands=[Name("repl-" + self.ident)])
 
 
-@scenario("pipeline:observers", PI, ["C08", "C07", "C10", "C18", "C12"],
+@scenario("pipeline:observers", PI, ["C08", "C07", "C10", "C18", "C12", "C16"],
           doc="an instruction enters the stream iff no installed observer drops it; observers are consulted in order, each at most once, "
               "on the instruction itself; what is encoded is the last observer's answer")
 def observers_pipeline():
     ensure()
     obs: List[Ob] = []
-    PR = ["C08", "C07", "C10", "C18"]
+    PR = ["C08", "C07", "C10", "C18", "C16"]     # C16: a continuation line (byte-column layout) must never reach the stream
     # the installed list is [RemoveEmptyInstructions] or [RemoveEmptyInstructions, ValidAddrObserver] (validaddr:install): lengths 0-3 cover it
     for n in (0, 1, 2, 3):
         def fn(n=n):
@@ -564,6 +573,29 @@ def observers_pipeline():
                                                                     getattr(res.operands[0], "ident", "") == f"repl-{n - 1}")
                 obs.append(simple_ob(base + ":POST-last", PI, "POST", "a kept instruction is encoded as the last observer answered it",
                                      bool(okl), ["C18", "C08"], detail=repr(res), witness=f"n={n} answers={answers}"))
+    # consume_instruction after ANY number of earlier instructions: the text consumed so far grows by exactly this record
+    from vf.rt import Splice, join as _join
+    CI = "jasm.consumer.CompleteConsumer.consume_instruction"
+
+    def fn3():
+        c = J.consumer.CompleteConsumer(regex_rule="x", matched_observer=J.mobs.MatchedObserver(),
+                                        matching_mode=J.gd.MatchingSearchMode.first_find, return_only_address=False)
+        for o in J.match.ObserverBuilder().get_instruction_observers():
+            c.add_observer(o)
+        c._all_instructions_list = [Splice(SymSeq("records", Name("rec_k"), 0))]
+        c.consume_instruction(J.gd.Instruction(addr=Name("a"), mnemonic=Name("m"), operands=[Name("o1")]))
+        pending = c._all_instructions + _join("", c._all_instructions_list)
+        return pending
+    try:
+        run3 = sym_run(fn3)
+        for i, p in enumerate(run3.paths):
+            shown = run3.ctx.table.show(p.value) if p.kind == "ret" else repr(p.value)
+            obs.append(simple_ob(f"consume_instruction:any-prefix:p{i}:POST", CI, "POST",
+                                 "after any number of earlier instructions the consumed text (already folded + pending) is the earlier text followed by "
+                                 "exactly this instruction's record", shown == "‹join('',records)›‹a›::‹m›,‹o1›,|", ["C08", "C10", "C07"],
+                                 detail=shown, witness=shown))
+    except Exception as e:    # noqa
+        obs.append(simple_ob("consume_instruction:any-prefix:RUN", CI, "RUN", "symbolic execution completes", None, ["C08", "C10"], detail=f"unsupported: {e}"))
     # RemoveEmptyInstructions: drops exactly the byte-continuation pseudo-instruction, returns every other instruction itself
     RE = "jasm.stringify_asm.implementations.observers.RemoveEmptyInstructions.observe_instruction"
     for kind in ("real", "empty"):
@@ -575,5 +607,84 @@ def observers_pipeline():
             ok = p.kind == "ret" and ((p.value[0] is p.value[1]) if kind == "real" else p.value[0] is None)
             obs.append(simple_ob(f"RemoveEmptyInstructions:{kind}:p{i}:POST", RE, "POST",
                                  "a real instruction is returned itself, unchanged" if kind == "real" else "the pseudo-instruction 'empty' is dropped",
-                                 ok, ["C08", "C07", "C10"], detail=repr(p.value), witness=kind))
+                                 ok, ["C08", "C07", "C10", "C16"], detail=repr(p.value), witness=kind))
+    return obs
+
+
+# --------------------------------------------------------------------------- parse_line is a function of its line only
+@scenario("parser:pure", LP + ".parse_line", ["C07", "C08", "C16", "C10", "C14"],
+          doc="parse_line keeps no state: an earlier result is a separate object that later calls (same body, other address) do not change, "
+              "and a repeated line gives an equal result")
+def parse_line_pure():
+    ensure()
+    obs: List[Ob] = []
+    func = LP + ".parse_line"
+    bodies = ["55                   \tpush   %rbp", "c3                   \tret", "e8 00 00 00 00       \tcall   401010 <f>",
+              "48 8b 45 f8          \tmov    -0x8(%rbp),%rax", "00 00 00 "]
+    for bi, body in enumerate(bodies):
+        lines = [f"  40100{k}:\t{body}" for k in (0, 5, 9)] + [f"  401000:\t{body}"]
+        res, snaps = [], []
+        for ln in lines:
+            r = J.lp.parse_line(ln)
+            res.append(r)
+            snaps.append((getattr(r, "addr", None), getattr(r, "mnemonic", None), list(getattr(r, "operands", []) or [])) if not isinstance(r, str) else r)
+        after = [(getattr(r, "addr", None), getattr(r, "mnemonic", None), list(getattr(r, "operands", []) or [])) if not isinstance(r, str) else r for r in res]
+        is_inst = [isinstance(r, J.gd.Instruction) for r in res]
+        distinct = all(res[i] is not res[j] for i in range(len(res)) for j in range(i) if is_inst[i] and is_inst[j])
+        addrs_ok = all((not is_inst[k]) or after[k][0] == lines[k].split(":")[0].strip() for k in range(len(res)))
+        obs.append(simple_ob(f"parse_line:pure:body{bi}:FRAME", func, "FRAME",
+                             "results of earlier calls are unchanged by later calls on lines with the same body (each carries ITS line's address); "
+                             "no two calls share a result object; the same line parsed again gives an equal result",
+                             after == snaps and distinct and addrs_ok and after[0] == after[3], ["C07", "C08", "C16", "C10", "C14"],
+                             detail=f"at call time {snaps} / afterwards {after}", witness=body,
+                             replay=None))
+    return obs
+
+
+# --------------------------------------------------------------------------- splitter / normaliser on adversarial concrete operand texts
+@scenario("parser:split-concrete", LP + ".LineParser.get_splitted_operands", ["C09", "C10", "C06"],
+          doc="concrete operand lists with long register names, deep displacements and segment prefixes: split and normal form agree with the "
+              "independent tab/parenthesis-depth decoder (oracle/objdump_model.py)")
+def split_concrete():
+    ensure()
+    from oracle import objdump_model as OM
+    obs: List[Ob] = []
+    regs = ["%rax", "%r8", "%r10d", "%r15d", "%r13", "%xmm15", "%ymm10", "%eax", "%bx", "%r9b", "%r12w"]
+    disps = ["", "0x8", "-0x8", "0x1dc59", "-0x7fffffff", "0x0", "0xa", "0x10", "0x1b", "0xd"]
+    mems = []
+    for a in regs[:9]:
+        for b in ("%rbx", "%r10d", "%r15d", "%r14"):
+            for d in disps[:4]:
+                mems.append(f"{d}({a},{b},{'1248'[len(mems) % 4]})")
+    for b in ("%rax", "%r10d", "%r15d"):
+        for d in ("0x0", "0x10", "-0x8"):
+            mems.append(f"{d}(,{b},8)")
+    for a in regs[:8]:
+        for d in disps:
+            mems.append(f"{d}({a})")
+    cases = [f"{m},%rdx" for m in mems[::3]] + [f"%rcx,{m}" for m in mems[1::3]] + [f"$0x1,{m},%rsi" for m in mems[2::7]] + \
+            ["%rax", "$0x10,%eax", "%xmm0,%xmm1,%xmm2", "401000", "*%rax", "*0x8(%rip)"]
+    f_split = J.lp.LineParser.get_splitted_operands
+    for s_ in cases:
+        want = OM.split_operands(s_)
+        try:
+            got = list(f_split(s_))
+        except Exception as e:  # noqa
+            got = repr(e)
+        obs.append(simple_ob(f"get_splitted_operands:concrete:{s_}:POST", LP + ".LineParser.get_splitted_operands", "POST",
+                             f"{s_!r} splits at the commas outside parentheses into {want}", got == want, ["C09", "C10"],
+                             detail=repr(got), witness=f"{s_} -> {got}",
+                             replay={"kind": "call", "target": "jasm.stringify_asm.implementations.gnu_objdump.asm_manual_parser_w_regex:LineParser.get_splitted_operands",
+                                     "args": [s_], "expect": want}))
+    # normal form of every memory text (as the operand of an lea line, through parse_line)
+    for m in mems:
+        line = f"  401000:\t48 8d 04 00          \tlea    {m},%rsi"
+        want = OM.decode_line(line)
+        try:
+            r = J.lp.parse_line(line)
+            got = (r.addr, r.mnemonic, list(r.operands)) if isinstance(r, J.gd.Instruction) else repr(r)
+        except Exception as e:  # noqa
+            got = repr(e)
+        obs.append(simple_ob(f"parse_line:concrete-mem:{m}:POST", LP + ".parse_line", "POST",
+                             f"lea {m},%rsi decodes to {want}", got == want, ["C09", "C06", "C10"], detail=repr(got), witness=f"{m} -> {got}"))
     return obs
